@@ -713,6 +713,11 @@ int reb_check_exit(struct reb_simulation* const r, const double tmax, double* la
                     }
                     if (fabs(r->t-tmax)<tscale){
                         r->status = REB_STATUS_SUCCESS;
+                    }else if ((r->t-tmax)*dtsign>0.){
+                        // The shortened last step was meant to end at tmax and went past it by
+                        // rounding only. Do not step back against the direction of integration.
+                        r->t = tmax;
+                        r->status = REB_STATUS_SUCCESS;
                     }else{
                         // not there yet, do another step.
                         reb_simulation_synchronize_between_steps(r);
